@@ -47,7 +47,10 @@ MainId  == 0
 variables
   mgrLock = -1, haltLock = -1,                 \* -1 free, else holder
   thrLock = [t \in Players |-> -1],
-  go = [t \in Players |-> TRUE],               \* threading.Event
+  go = [t \in Players |-> TRUE],               \* threading.Event (its flag)
+  released = [t \in Players |-> FALSE],        \* a set() has notified the player blocked in go.wait(): Event.wait
+                                               \* returns once notified even if the flag is cleared again before the
+                                               \* waiter runs (threading.Condition semantics)
   halting = [t \in Players |-> FALSE],         \* AudioThread.halting
   finished = FALSE,                            \* AudioIO.finished
   threads = <<>>,                              \* AudioIO._threads
@@ -104,6 +107,7 @@ pa3:  Release(thrLock[tgt]);
       else { with (t \in PausedForever) { tgt := t } };
 re1:  Acquire(thrLock[tgt], MainId);
 re2:  go[tgt] := TRUE;                                   \* self.go.set()
+      if (pc[tgt] = "p5") { released[tgt] := TRUE };
 re3:  Release(thrLock[tgt]);
     } or {     \* ---- thread.stop()
       await nctl < MaxCtl /\ Started # {};
@@ -111,7 +115,8 @@ re3:  Release(thrLock[tgt]);
       nctl := nctl + 1;
 st1:  Acquire(thrLock[tgt], MainId);
 st2:  halting[tgt] := TRUE;                              \* self.halting = True
-st3:  if (StopWakes) { go[tgt] := TRUE } else { go[tgt] := FALSE };   \* self.go.clear()  (fixed: set)
+st3:  if (StopWakes) { go[tgt] := TRUE; if (pc[tgt] = "p5") { released[tgt] := TRUE } }
+      else { go[tgt] := FALSE };                         \* self.go.clear()  (fixed: set)
 st4:  Release(thrLock[tgt]);
     } or {     \* ---- close()   (environment assumption for wait=True: nobody is left paused forever)
       await ~Wait \/ PausedForever = {};
@@ -129,7 +134,8 @@ c3s:      Release(mgrLock);
 c4:     if (~Wait) {                                     \* if not self.wait: thread.stop()
 cs1:      Acquire(thrLock[th], MainId);
 cs2:      halting[th] := TRUE;
-cs3:      if (StopWakes) { go[th] := TRUE } else { go[th] := FALSE };
+cs3:      if (StopWakes) { go[th] := TRUE; if (pc[th] = "p5") { released[th] := TRUE } }
+          else { go[th] := FALSE };
 cs4:      Release(thrLock[th]);
         };
 c7:     await ~alive[th];                                \* thread.join()
@@ -174,7 +180,8 @@ p1h:  if (StopWakes /\ halting[self]) { goto p3 };       \*   (fixed) if self.ha
 p2:   if (go[self]) { goto p1 };                         \*   if not self.go.is_set():
 p3:   sstate[self] := "stopped";                         \*     self.stream.stop_stream()
 p4:   if (halting[self]) { goto p8 };                    \*     if self.halting: break
-p5:   await go[self];                                    \*     self.go.wait()
+p5:   await go[self] \/ released[self];                  \*     self.go.wait()
+      released[self] := FALSE;
 p5h:  if (StopWakes /\ halting[self]) { goto p8 };       \*     (fixed) stopped while paused
 p6:   sstate[self] := "open";                            \*     self.stream.start_stream()
     };
@@ -193,9 +200,10 @@ p13: alive[self] := FALSE;                               \* run() returns, the t
 }
 } *)
 \* BEGIN TRANSLATION
-VARIABLES pc, mgrLock, haltLock, thrLock, go, halting, finished, threads, 
-          finishing, started, alive, written, sstate, terminated, badWrite, 
-          nctl, closed, playRaised, aliveAtClose, openAtClose, faulted
+VARIABLES pc, mgrLock, haltLock, thrLock, go, released, halting, finished, 
+          threads, finishing, started, alive, written, sstate, terminated, 
+          badWrite, nctl, closed, playRaised, aliveAtClose, openAtClose, 
+          faulted
 
 (* define statement *)
 Started      == {t \in Players : started[t]}
@@ -203,10 +211,10 @@ PausedForever == {t \in Started : ~go[t] /\ ~halting[t]}
 
 VARIABLES tgt, th, tojoin, idx
 
-vars == << pc, mgrLock, haltLock, thrLock, go, halting, finished, threads, 
-           finishing, started, alive, written, sstate, terminated, badWrite, 
-           nctl, closed, playRaised, aliveAtClose, openAtClose, faulted, tgt, 
-           th, tojoin, idx >>
+vars == << pc, mgrLock, haltLock, thrLock, go, released, halting, finished, 
+           threads, finishing, started, alive, written, sstate, terminated, 
+           badWrite, nctl, closed, playRaised, aliveAtClose, openAtClose, 
+           faulted, tgt, th, tojoin, idx >>
 
 ProcSet == {MainId} \cup (Players)
 
@@ -215,6 +223,7 @@ Init == (* Global variables *)
         /\ haltLock = -1
         /\ thrLock = [t \in Players |-> -1]
         /\ go = [t \in Players |-> TRUE]
+        /\ released = [t \in Players |-> FALSE]
         /\ halting = [t \in Players |-> FALSE]
         /\ finished = FALSE
         /\ threads = <<>>
@@ -267,27 +276,28 @@ ctl == /\ pc[MainId] = "ctl"
           \/ /\ ~Wait \/ PausedForever = {}
              /\ pc' = [pc EXCEPT ![MainId] = "c0"]
              /\ UNCHANGED <<nctl, tgt>>
-       /\ UNCHANGED << mgrLock, haltLock, thrLock, go, halting, finished, 
-                       threads, finishing, started, alive, written, sstate, 
-                       terminated, badWrite, closed, playRaised, aliveAtClose, 
-                       openAtClose, faulted, th, tojoin, idx >>
+       /\ UNCHANGED << mgrLock, haltLock, thrLock, go, released, halting, 
+                       finished, threads, finishing, started, alive, written, 
+                       sstate, terminated, badWrite, closed, playRaised, 
+                       aliveAtClose, openAtClose, faulted, th, tojoin, idx >>
 
 mp1 == /\ pc[MainId] = "mp1"
        /\ mgrLock = -1
        /\ mgrLock' = MainId
        /\ pc' = [pc EXCEPT ![MainId] = "mp2"]
-       /\ UNCHANGED << haltLock, thrLock, go, halting, finished, threads, 
-                       finishing, started, alive, written, sstate, terminated, 
-                       badWrite, nctl, closed, playRaised, aliveAtClose, 
-                       openAtClose, faulted, tgt, th, tojoin, idx >>
+       /\ UNCHANGED << haltLock, thrLock, go, released, halting, finished, 
+                       threads, finishing, started, alive, written, sstate, 
+                       terminated, badWrite, nctl, closed, playRaised, 
+                       aliveAtClose, openAtClose, faulted, tgt, th, tojoin, 
+                       idx >>
 
 mp2 == /\ pc[MainId] = "mp2"
        /\ IF finished
              THEN /\ pc' = [pc EXCEPT ![MainId] = "mpE"]
              ELSE /\ pc' = [pc EXCEPT ![MainId] = "mp3"]
-       /\ UNCHANGED << mgrLock, haltLock, thrLock, go, halting, finished, 
-                       threads, finishing, started, alive, written, sstate, 
-                       terminated, badWrite, nctl, closed, playRaised, 
+       /\ UNCHANGED << mgrLock, haltLock, thrLock, go, released, halting, 
+                       finished, threads, finishing, started, alive, written, 
+                       sstate, terminated, badWrite, nctl, closed, playRaised, 
                        aliveAtClose, openAtClose, faulted, tgt, th, tojoin, 
                        idx >>
 
@@ -295,80 +305,92 @@ mpE == /\ pc[MainId] = "mpE"
        /\ mgrLock' = -1
        /\ playRaised' = TRUE
        /\ pc' = [pc EXCEPT ![MainId] = "ctl"]
-       /\ UNCHANGED << haltLock, thrLock, go, halting, finished, threads, 
-                       finishing, started, alive, written, sstate, terminated, 
-                       badWrite, nctl, closed, aliveAtClose, openAtClose, 
-                       faulted, tgt, th, tojoin, idx >>
+       /\ UNCHANGED << haltLock, thrLock, go, released, halting, finished, 
+                       threads, finishing, started, alive, written, sstate, 
+                       terminated, badWrite, nctl, closed, aliveAtClose, 
+                       openAtClose, faulted, tgt, th, tojoin, idx >>
 
 mp3 == /\ pc[MainId] = "mp3"
        /\ sstate' = [sstate EXCEPT ![tgt] = "open"]
        /\ pc' = [pc EXCEPT ![MainId] = "mp4"]
-       /\ UNCHANGED << mgrLock, haltLock, thrLock, go, halting, finished, 
-                       threads, finishing, started, alive, written, terminated, 
-                       badWrite, nctl, closed, playRaised, aliveAtClose, 
-                       openAtClose, faulted, tgt, th, tojoin, idx >>
+       /\ UNCHANGED << mgrLock, haltLock, thrLock, go, released, halting, 
+                       finished, threads, finishing, started, alive, written, 
+                       terminated, badWrite, nctl, closed, playRaised, 
+                       aliveAtClose, openAtClose, faulted, tgt, th, tojoin, 
+                       idx >>
 
 mp4 == /\ pc[MainId] = "mp4"
        /\ threads' = Append(threads, tgt)
        /\ pc' = [pc EXCEPT ![MainId] = "mp5"]
-       /\ UNCHANGED << mgrLock, haltLock, thrLock, go, halting, finished, 
-                       finishing, started, alive, written, sstate, terminated, 
-                       badWrite, nctl, closed, playRaised, aliveAtClose, 
-                       openAtClose, faulted, tgt, th, tojoin, idx >>
+       /\ UNCHANGED << mgrLock, haltLock, thrLock, go, released, halting, 
+                       finished, finishing, started, alive, written, sstate, 
+                       terminated, badWrite, nctl, closed, playRaised, 
+                       aliveAtClose, openAtClose, faulted, tgt, th, tojoin, 
+                       idx >>
 
 mp5 == /\ pc[MainId] = "mp5"
        /\ started' = [started EXCEPT ![tgt] = TRUE]
        /\ alive' = [alive EXCEPT ![tgt] = TRUE]
        /\ pc' = [pc EXCEPT ![MainId] = "mp6"]
-       /\ UNCHANGED << mgrLock, haltLock, thrLock, go, halting, finished, 
-                       threads, finishing, written, sstate, terminated, 
-                       badWrite, nctl, closed, playRaised, aliveAtClose, 
-                       openAtClose, faulted, tgt, th, tojoin, idx >>
+       /\ UNCHANGED << mgrLock, haltLock, thrLock, go, released, halting, 
+                       finished, threads, finishing, written, sstate, 
+                       terminated, badWrite, nctl, closed, playRaised, 
+                       aliveAtClose, openAtClose, faulted, tgt, th, tojoin, 
+                       idx >>
 
 mp6 == /\ pc[MainId] = "mp6"
        /\ mgrLock' = -1
        /\ pc' = [pc EXCEPT ![MainId] = "ctl"]
-       /\ UNCHANGED << haltLock, thrLock, go, halting, finished, threads, 
-                       finishing, started, alive, written, sstate, terminated, 
-                       badWrite, nctl, closed, playRaised, aliveAtClose, 
-                       openAtClose, faulted, tgt, th, tojoin, idx >>
+       /\ UNCHANGED << haltLock, thrLock, go, released, halting, finished, 
+                       threads, finishing, started, alive, written, sstate, 
+                       terminated, badWrite, nctl, closed, playRaised, 
+                       aliveAtClose, openAtClose, faulted, tgt, th, tojoin, 
+                       idx >>
 
 pa1 == /\ pc[MainId] = "pa1"
        /\ (thrLock[tgt]) = -1
        /\ thrLock' = [thrLock EXCEPT ![tgt] = MainId]
        /\ pc' = [pc EXCEPT ![MainId] = "pa2"]
-       /\ UNCHANGED << mgrLock, haltLock, go, halting, finished, threads, 
-                       finishing, started, alive, written, sstate, terminated, 
-                       badWrite, nctl, closed, playRaised, aliveAtClose, 
-                       openAtClose, faulted, tgt, th, tojoin, idx >>
+       /\ UNCHANGED << mgrLock, haltLock, go, released, halting, finished, 
+                       threads, finishing, started, alive, written, sstate, 
+                       terminated, badWrite, nctl, closed, playRaised, 
+                       aliveAtClose, openAtClose, faulted, tgt, th, tojoin, 
+                       idx >>
 
 pa2 == /\ pc[MainId] = "pa2"
        /\ go' = [go EXCEPT ![tgt] = FALSE]
        /\ pc' = [pc EXCEPT ![MainId] = "pa3"]
-       /\ UNCHANGED << mgrLock, haltLock, thrLock, halting, finished, threads, 
-                       finishing, started, alive, written, sstate, terminated, 
-                       badWrite, nctl, closed, playRaised, aliveAtClose, 
-                       openAtClose, faulted, tgt, th, tojoin, idx >>
+       /\ UNCHANGED << mgrLock, haltLock, thrLock, released, halting, finished, 
+                       threads, finishing, started, alive, written, sstate, 
+                       terminated, badWrite, nctl, closed, playRaised, 
+                       aliveAtClose, openAtClose, faulted, tgt, th, tojoin, 
+                       idx >>
 
 pa3 == /\ pc[MainId] = "pa3"
        /\ thrLock' = [thrLock EXCEPT ![tgt] = -1]
        /\ pc' = [pc EXCEPT ![MainId] = "ctl"]
-       /\ UNCHANGED << mgrLock, haltLock, go, halting, finished, threads, 
-                       finishing, started, alive, written, sstate, terminated, 
-                       badWrite, nctl, closed, playRaised, aliveAtClose, 
-                       openAtClose, faulted, tgt, th, tojoin, idx >>
+       /\ UNCHANGED << mgrLock, haltLock, go, released, halting, finished, 
+                       threads, finishing, started, alive, written, sstate, 
+                       terminated, badWrite, nctl, closed, playRaised, 
+                       aliveAtClose, openAtClose, faulted, tgt, th, tojoin, 
+                       idx >>
 
 re1 == /\ pc[MainId] = "re1"
        /\ (thrLock[tgt]) = -1
        /\ thrLock' = [thrLock EXCEPT ![tgt] = MainId]
        /\ pc' = [pc EXCEPT ![MainId] = "re2"]
-       /\ UNCHANGED << mgrLock, haltLock, go, halting, finished, threads, 
-                       finishing, started, alive, written, sstate, terminated, 
-                       badWrite, nctl, closed, playRaised, aliveAtClose, 
-                       openAtClose, faulted, tgt, th, tojoin, idx >>
+       /\ UNCHANGED << mgrLock, haltLock, go, released, halting, finished, 
+                       threads, finishing, started, alive, written, sstate, 
+                       terminated, badWrite, nctl, closed, playRaised, 
+                       aliveAtClose, openAtClose, faulted, tgt, th, tojoin, 
+                       idx >>
 
 re2 == /\ pc[MainId] = "re2"
        /\ go' = [go EXCEPT ![tgt] = TRUE]
+       /\ IF pc[tgt] = "p5"
+             THEN /\ released' = [released EXCEPT ![tgt] = TRUE]
+             ELSE /\ TRUE
+                  /\ UNCHANGED released
        /\ pc' = [pc EXCEPT ![MainId] = "re3"]
        /\ UNCHANGED << mgrLock, haltLock, thrLock, halting, finished, threads, 
                        finishing, started, alive, written, sstate, terminated, 
@@ -378,32 +400,40 @@ re2 == /\ pc[MainId] = "re2"
 re3 == /\ pc[MainId] = "re3"
        /\ thrLock' = [thrLock EXCEPT ![tgt] = -1]
        /\ pc' = [pc EXCEPT ![MainId] = "ctl"]
-       /\ UNCHANGED << mgrLock, haltLock, go, halting, finished, threads, 
-                       finishing, started, alive, written, sstate, terminated, 
-                       badWrite, nctl, closed, playRaised, aliveAtClose, 
-                       openAtClose, faulted, tgt, th, tojoin, idx >>
+       /\ UNCHANGED << mgrLock, haltLock, go, released, halting, finished, 
+                       threads, finishing, started, alive, written, sstate, 
+                       terminated, badWrite, nctl, closed, playRaised, 
+                       aliveAtClose, openAtClose, faulted, tgt, th, tojoin, 
+                       idx >>
 
 st1 == /\ pc[MainId] = "st1"
        /\ (thrLock[tgt]) = -1
        /\ thrLock' = [thrLock EXCEPT ![tgt] = MainId]
        /\ pc' = [pc EXCEPT ![MainId] = "st2"]
-       /\ UNCHANGED << mgrLock, haltLock, go, halting, finished, threads, 
-                       finishing, started, alive, written, sstate, terminated, 
-                       badWrite, nctl, closed, playRaised, aliveAtClose, 
-                       openAtClose, faulted, tgt, th, tojoin, idx >>
+       /\ UNCHANGED << mgrLock, haltLock, go, released, halting, finished, 
+                       threads, finishing, started, alive, written, sstate, 
+                       terminated, badWrite, nctl, closed, playRaised, 
+                       aliveAtClose, openAtClose, faulted, tgt, th, tojoin, 
+                       idx >>
 
 st2 == /\ pc[MainId] = "st2"
        /\ halting' = [halting EXCEPT ![tgt] = TRUE]
        /\ pc' = [pc EXCEPT ![MainId] = "st3"]
-       /\ UNCHANGED << mgrLock, haltLock, thrLock, go, finished, threads, 
-                       finishing, started, alive, written, sstate, terminated, 
-                       badWrite, nctl, closed, playRaised, aliveAtClose, 
-                       openAtClose, faulted, tgt, th, tojoin, idx >>
+       /\ UNCHANGED << mgrLock, haltLock, thrLock, go, released, finished, 
+                       threads, finishing, started, alive, written, sstate, 
+                       terminated, badWrite, nctl, closed, playRaised, 
+                       aliveAtClose, openAtClose, faulted, tgt, th, tojoin, 
+                       idx >>
 
 st3 == /\ pc[MainId] = "st3"
        /\ IF StopWakes
              THEN /\ go' = [go EXCEPT ![tgt] = TRUE]
+                  /\ IF pc[tgt] = "p5"
+                        THEN /\ released' = [released EXCEPT ![tgt] = TRUE]
+                        ELSE /\ TRUE
+                             /\ UNCHANGED released
              ELSE /\ go' = [go EXCEPT ![tgt] = FALSE]
+                  /\ UNCHANGED released
        /\ pc' = [pc EXCEPT ![MainId] = "st4"]
        /\ UNCHANGED << mgrLock, haltLock, thrLock, halting, finished, threads, 
                        finishing, started, alive, written, sstate, terminated, 
@@ -413,19 +443,20 @@ st3 == /\ pc[MainId] = "st3"
 st4 == /\ pc[MainId] = "st4"
        /\ thrLock' = [thrLock EXCEPT ![tgt] = -1]
        /\ pc' = [pc EXCEPT ![MainId] = "ctl"]
-       /\ UNCHANGED << mgrLock, haltLock, go, halting, finished, threads, 
-                       finishing, started, alive, written, sstate, terminated, 
-                       badWrite, nctl, closed, playRaised, aliveAtClose, 
-                       openAtClose, faulted, tgt, th, tojoin, idx >>
+       /\ UNCHANGED << mgrLock, haltLock, go, released, halting, finished, 
+                       threads, finishing, started, alive, written, sstate, 
+                       terminated, badWrite, nctl, closed, playRaised, 
+                       aliveAtClose, openAtClose, faulted, tgt, th, tojoin, 
+                       idx >>
 
 c0 == /\ pc[MainId] = "c0"
       /\ haltLock = -1
       /\ haltLock' = MainId
       /\ pc' = [pc EXCEPT ![MainId] = "c1"]
-      /\ UNCHANGED << mgrLock, thrLock, go, halting, finished, threads, 
-                      finishing, started, alive, written, sstate, terminated, 
-                      badWrite, nctl, closed, playRaised, aliveAtClose, 
-                      openAtClose, faulted, tgt, th, tojoin, idx >>
+      /\ UNCHANGED << mgrLock, thrLock, go, released, halting, finished, 
+                      threads, finishing, started, alive, written, sstate, 
+                      terminated, badWrite, nctl, closed, playRaised, 
+                      aliveAtClose, openAtClose, faulted, tgt, th, tojoin, idx >>
 
 c1 == /\ pc[MainId] = "c1"
       /\ IF ~finished
@@ -433,19 +464,19 @@ c1 == /\ pc[MainId] = "c1"
                  /\ pc' = [pc EXCEPT ![MainId] = "c2"]
             ELSE /\ pc' = [pc EXCEPT ![MainId] = "c10"]
                  /\ UNCHANGED finished
-      /\ UNCHANGED << mgrLock, haltLock, thrLock, go, halting, threads, 
-                      finishing, started, alive, written, sstate, terminated, 
-                      badWrite, nctl, closed, playRaised, aliveAtClose, 
-                      openAtClose, faulted, tgt, th, tojoin, idx >>
+      /\ UNCHANGED << mgrLock, haltLock, thrLock, go, released, halting, 
+                      threads, finishing, started, alive, written, sstate, 
+                      terminated, badWrite, nctl, closed, playRaised, 
+                      aliveAtClose, openAtClose, faulted, tgt, th, tojoin, idx >>
 
 c2 == /\ pc[MainId] = "c2"
       /\ mgrLock = -1
       /\ mgrLock' = MainId
       /\ pc' = [pc EXCEPT ![MainId] = "c3"]
-      /\ UNCHANGED << haltLock, thrLock, go, halting, finished, threads, 
-                      finishing, started, alive, written, sstate, terminated, 
-                      badWrite, nctl, closed, playRaised, aliveAtClose, 
-                      openAtClose, faulted, tgt, th, tojoin, idx >>
+      /\ UNCHANGED << haltLock, thrLock, go, released, halting, finished, 
+                      threads, finishing, started, alive, written, sstate, 
+                      terminated, badWrite, nctl, closed, playRaised, 
+                      aliveAtClose, openAtClose, faulted, tgt, th, tojoin, idx >>
 
 c3 == /\ pc[MainId] = "c3"
       /\ IF threads = <<>>
@@ -453,57 +484,66 @@ c3 == /\ pc[MainId] = "c3"
                  /\ th' = th
             ELSE /\ th' = threads[1]
                  /\ pc' = [pc EXCEPT ![MainId] = "c3s"]
-      /\ UNCHANGED << mgrLock, haltLock, thrLock, go, halting, finished, 
-                      threads, finishing, started, alive, written, sstate, 
-                      terminated, badWrite, nctl, closed, playRaised, 
+      /\ UNCHANGED << mgrLock, haltLock, thrLock, go, released, halting, 
+                      finished, threads, finishing, started, alive, written, 
+                      sstate, terminated, badWrite, nctl, closed, playRaised, 
                       aliveAtClose, openAtClose, faulted, tgt, tojoin, idx >>
 
 c3r == /\ pc[MainId] = "c3r"
        /\ mgrLock' = -1
        /\ pc' = [pc EXCEPT ![MainId] = "c8"]
-       /\ UNCHANGED << haltLock, thrLock, go, halting, finished, threads, 
-                       finishing, started, alive, written, sstate, terminated, 
-                       badWrite, nctl, closed, playRaised, aliveAtClose, 
-                       openAtClose, faulted, tgt, th, tojoin, idx >>
+       /\ UNCHANGED << haltLock, thrLock, go, released, halting, finished, 
+                       threads, finishing, started, alive, written, sstate, 
+                       terminated, badWrite, nctl, closed, playRaised, 
+                       aliveAtClose, openAtClose, faulted, tgt, th, tojoin, 
+                       idx >>
 
 c3s == /\ pc[MainId] = "c3s"
        /\ mgrLock' = -1
        /\ pc' = [pc EXCEPT ![MainId] = "c4"]
-       /\ UNCHANGED << haltLock, thrLock, go, halting, finished, threads, 
-                       finishing, started, alive, written, sstate, terminated, 
-                       badWrite, nctl, closed, playRaised, aliveAtClose, 
-                       openAtClose, faulted, tgt, th, tojoin, idx >>
+       /\ UNCHANGED << haltLock, thrLock, go, released, halting, finished, 
+                       threads, finishing, started, alive, written, sstate, 
+                       terminated, badWrite, nctl, closed, playRaised, 
+                       aliveAtClose, openAtClose, faulted, tgt, th, tojoin, 
+                       idx >>
 
 c4 == /\ pc[MainId] = "c4"
       /\ IF ~Wait
             THEN /\ pc' = [pc EXCEPT ![MainId] = "cs1"]
             ELSE /\ pc' = [pc EXCEPT ![MainId] = "c7"]
-      /\ UNCHANGED << mgrLock, haltLock, thrLock, go, halting, finished, 
-                      threads, finishing, started, alive, written, sstate, 
-                      terminated, badWrite, nctl, closed, playRaised, 
+      /\ UNCHANGED << mgrLock, haltLock, thrLock, go, released, halting, 
+                      finished, threads, finishing, started, alive, written, 
+                      sstate, terminated, badWrite, nctl, closed, playRaised, 
                       aliveAtClose, openAtClose, faulted, tgt, th, tojoin, idx >>
 
 cs1 == /\ pc[MainId] = "cs1"
        /\ (thrLock[th]) = -1
        /\ thrLock' = [thrLock EXCEPT ![th] = MainId]
        /\ pc' = [pc EXCEPT ![MainId] = "cs2"]
-       /\ UNCHANGED << mgrLock, haltLock, go, halting, finished, threads, 
-                       finishing, started, alive, written, sstate, terminated, 
-                       badWrite, nctl, closed, playRaised, aliveAtClose, 
-                       openAtClose, faulted, tgt, th, tojoin, idx >>
+       /\ UNCHANGED << mgrLock, haltLock, go, released, halting, finished, 
+                       threads, finishing, started, alive, written, sstate, 
+                       terminated, badWrite, nctl, closed, playRaised, 
+                       aliveAtClose, openAtClose, faulted, tgt, th, tojoin, 
+                       idx >>
 
 cs2 == /\ pc[MainId] = "cs2"
        /\ halting' = [halting EXCEPT ![th] = TRUE]
        /\ pc' = [pc EXCEPT ![MainId] = "cs3"]
-       /\ UNCHANGED << mgrLock, haltLock, thrLock, go, finished, threads, 
-                       finishing, started, alive, written, sstate, terminated, 
-                       badWrite, nctl, closed, playRaised, aliveAtClose, 
-                       openAtClose, faulted, tgt, th, tojoin, idx >>
+       /\ UNCHANGED << mgrLock, haltLock, thrLock, go, released, finished, 
+                       threads, finishing, started, alive, written, sstate, 
+                       terminated, badWrite, nctl, closed, playRaised, 
+                       aliveAtClose, openAtClose, faulted, tgt, th, tojoin, 
+                       idx >>
 
 cs3 == /\ pc[MainId] = "cs3"
        /\ IF StopWakes
              THEN /\ go' = [go EXCEPT ![th] = TRUE]
+                  /\ IF pc[th] = "p5"
+                        THEN /\ released' = [released EXCEPT ![th] = TRUE]
+                        ELSE /\ TRUE
+                             /\ UNCHANGED released
              ELSE /\ go' = [go EXCEPT ![th] = FALSE]
+                  /\ UNCHANGED released
        /\ pc' = [pc EXCEPT ![MainId] = "cs4"]
        /\ UNCHANGED << mgrLock, haltLock, thrLock, halting, finished, threads, 
                        finishing, started, alive, written, sstate, terminated, 
@@ -513,25 +553,26 @@ cs3 == /\ pc[MainId] = "cs3"
 cs4 == /\ pc[MainId] = "cs4"
        /\ thrLock' = [thrLock EXCEPT ![th] = -1]
        /\ pc' = [pc EXCEPT ![MainId] = "c7"]
-       /\ UNCHANGED << mgrLock, haltLock, go, halting, finished, threads, 
-                       finishing, started, alive, written, sstate, terminated, 
-                       badWrite, nctl, closed, playRaised, aliveAtClose, 
-                       openAtClose, faulted, tgt, th, tojoin, idx >>
+       /\ UNCHANGED << mgrLock, haltLock, go, released, halting, finished, 
+                       threads, finishing, started, alive, written, sstate, 
+                       terminated, badWrite, nctl, closed, playRaised, 
+                       aliveAtClose, openAtClose, faulted, tgt, th, tojoin, 
+                       idx >>
 
 c7 == /\ pc[MainId] = "c7"
       /\ ~alive[th]
       /\ pc' = [pc EXCEPT ![MainId] = "c2"]
-      /\ UNCHANGED << mgrLock, haltLock, thrLock, go, halting, finished, 
-                      threads, finishing, started, alive, written, sstate, 
-                      terminated, badWrite, nctl, closed, playRaised, 
+      /\ UNCHANGED << mgrLock, haltLock, thrLock, go, released, halting, 
+                      finished, threads, finishing, started, alive, written, 
+                      sstate, terminated, badWrite, nctl, closed, playRaised, 
                       aliveAtClose, openAtClose, faulted, tgt, th, tojoin, idx >>
 
 c8 == /\ pc[MainId] = "c8"
       /\ tojoin' = IF JoinAll THEN finishing ELSE <<>>
       /\ pc' = [pc EXCEPT ![MainId] = "c8a"]
-      /\ UNCHANGED << mgrLock, haltLock, thrLock, go, halting, finished, 
-                      threads, finishing, started, alive, written, sstate, 
-                      terminated, badWrite, nctl, closed, playRaised, 
+      /\ UNCHANGED << mgrLock, haltLock, thrLock, go, released, halting, 
+                      finished, threads, finishing, started, alive, written, 
+                      sstate, terminated, badWrite, nctl, closed, playRaised, 
                       aliveAtClose, openAtClose, faulted, tgt, th, idx >>
 
 c8a == /\ pc[MainId] = "c8a"
@@ -541,17 +582,17 @@ c8a == /\ pc[MainId] = "c8a"
                   /\ pc' = [pc EXCEPT ![MainId] = "c8j"]
              ELSE /\ pc' = [pc EXCEPT ![MainId] = "c9"]
                   /\ UNCHANGED << th, tojoin >>
-       /\ UNCHANGED << mgrLock, haltLock, thrLock, go, halting, finished, 
-                       threads, finishing, started, alive, written, sstate, 
-                       terminated, badWrite, nctl, closed, playRaised, 
+       /\ UNCHANGED << mgrLock, haltLock, thrLock, go, released, halting, 
+                       finished, threads, finishing, started, alive, written, 
+                       sstate, terminated, badWrite, nctl, closed, playRaised, 
                        aliveAtClose, openAtClose, faulted, tgt, idx >>
 
 c8j == /\ pc[MainId] = "c8j"
        /\ ~alive[th]
        /\ pc' = [pc EXCEPT ![MainId] = "c8a"]
-       /\ UNCHANGED << mgrLock, haltLock, thrLock, go, halting, finished, 
-                       threads, finishing, started, alive, written, sstate, 
-                       terminated, badWrite, nctl, closed, playRaised, 
+       /\ UNCHANGED << mgrLock, haltLock, thrLock, go, released, halting, 
+                       finished, threads, finishing, started, alive, written, 
+                       sstate, terminated, badWrite, nctl, closed, playRaised, 
                        aliveAtClose, openAtClose, faulted, tgt, th, tojoin, 
                        idx >>
 
@@ -559,9 +600,9 @@ c9 == /\ pc[MainId] = "c9"
       /\ openAtClose' = {t \in Started : sstate[t] # "closed"}
       /\ terminated' = terminated + 1
       /\ pc' = [pc EXCEPT ![MainId] = "c10"]
-      /\ UNCHANGED << mgrLock, haltLock, thrLock, go, halting, finished, 
-                      threads, finishing, started, alive, written, sstate, 
-                      badWrite, nctl, closed, playRaised, aliveAtClose, 
+      /\ UNCHANGED << mgrLock, haltLock, thrLock, go, released, halting, 
+                      finished, threads, finishing, started, alive, written, 
+                      sstate, badWrite, nctl, closed, playRaised, aliveAtClose, 
                       faulted, tgt, th, tojoin, idx >>
 
 c10 == /\ pc[MainId] = "c10"
@@ -569,19 +610,20 @@ c10 == /\ pc[MainId] = "c10"
        /\ closed' = TRUE
        /\ aliveAtClose' = {t \in Players : alive[t]}
        /\ pc' = [pc EXCEPT ![MainId] = "ap1"]
-       /\ UNCHANGED << mgrLock, thrLock, go, halting, finished, threads, 
-                       finishing, started, alive, written, sstate, terminated, 
-                       badWrite, nctl, playRaised, openAtClose, faulted, tgt, 
-                       th, tojoin, idx >>
+       /\ UNCHANGED << mgrLock, thrLock, go, released, halting, finished, 
+                       threads, finishing, started, alive, written, sstate, 
+                       terminated, badWrite, nctl, playRaised, openAtClose, 
+                       faulted, tgt, th, tojoin, idx >>
 
 ap1 == /\ pc[MainId] = "ap1"
        /\ mgrLock = -1
        /\ mgrLock' = MainId
        /\ pc' = [pc EXCEPT ![MainId] = "ap2"]
-       /\ UNCHANGED << haltLock, thrLock, go, halting, finished, threads, 
-                       finishing, started, alive, written, sstate, terminated, 
-                       badWrite, nctl, closed, playRaised, aliveAtClose, 
-                       openAtClose, faulted, tgt, th, tojoin, idx >>
+       /\ UNCHANGED << haltLock, thrLock, go, released, halting, finished, 
+                       threads, finishing, started, alive, written, sstate, 
+                       terminated, badWrite, nctl, closed, playRaised, 
+                       aliveAtClose, openAtClose, faulted, tgt, th, tojoin, 
+                       idx >>
 
 ap2 == /\ pc[MainId] = "ap2"
        /\ IF finished
@@ -589,25 +631,27 @@ ap2 == /\ pc[MainId] = "ap2"
              ELSE /\ TRUE
                   /\ UNCHANGED playRaised
        /\ pc' = [pc EXCEPT ![MainId] = "ap3"]
-       /\ UNCHANGED << mgrLock, haltLock, thrLock, go, halting, finished, 
-                       threads, finishing, started, alive, written, sstate, 
-                       terminated, badWrite, nctl, closed, aliveAtClose, 
-                       openAtClose, faulted, tgt, th, tojoin, idx >>
+       /\ UNCHANGED << mgrLock, haltLock, thrLock, go, released, halting, 
+                       finished, threads, finishing, started, alive, written, 
+                       sstate, terminated, badWrite, nctl, closed, 
+                       aliveAtClose, openAtClose, faulted, tgt, th, tojoin, 
+                       idx >>
 
 ap3 == /\ pc[MainId] = "ap3"
        /\ mgrLock' = -1
        /\ pc' = [pc EXCEPT ![MainId] = "Fin"]
-       /\ UNCHANGED << haltLock, thrLock, go, halting, finished, threads, 
-                       finishing, started, alive, written, sstate, terminated, 
-                       badWrite, nctl, closed, playRaised, aliveAtClose, 
-                       openAtClose, faulted, tgt, th, tojoin, idx >>
+       /\ UNCHANGED << haltLock, thrLock, go, released, halting, finished, 
+                       threads, finishing, started, alive, written, sstate, 
+                       terminated, badWrite, nctl, closed, playRaised, 
+                       aliveAtClose, openAtClose, faulted, tgt, th, tojoin, 
+                       idx >>
 
 Fin == /\ pc[MainId] = "Fin"
        /\ TRUE
        /\ pc' = [pc EXCEPT ![MainId] = "Done"]
-       /\ UNCHANGED << mgrLock, haltLock, thrLock, go, halting, finished, 
-                       threads, finishing, started, alive, written, sstate, 
-                       terminated, badWrite, nctl, closed, playRaised, 
+       /\ UNCHANGED << mgrLock, haltLock, thrLock, go, released, halting, 
+                       finished, threads, finishing, started, alive, written, 
+                       sstate, terminated, badWrite, nctl, closed, playRaised, 
                        aliveAtClose, openAtClose, faulted, tgt, th, tojoin, 
                        idx >>
 
@@ -620,21 +664,21 @@ Main == ctl \/ mp1 \/ mp2 \/ mpE \/ mp3 \/ mp4 \/ mp5 \/ mp6 \/ pa1 \/ pa2
 p0(self) == /\ pc[self] = "p0"
             /\ alive[self]
             /\ pc' = [pc EXCEPT ![self] = "p1"]
-            /\ UNCHANGED << mgrLock, haltLock, thrLock, go, halting, finished, 
-                            threads, finishing, started, alive, written, 
-                            sstate, terminated, badWrite, nctl, closed, 
-                            playRaised, aliveAtClose, openAtClose, faulted, 
-                            tgt, th, tojoin, idx >>
+            /\ UNCHANGED << mgrLock, haltLock, thrLock, go, released, halting, 
+                            finished, threads, finishing, started, alive, 
+                            written, sstate, terminated, badWrite, nctl, 
+                            closed, playRaised, aliveAtClose, openAtClose, 
+                            faulted, tgt, th, tojoin, idx >>
 
 p1(self) == /\ pc[self] = "p1"
             /\ IF idx[self] < NChunks[self]
                   THEN /\ pc' = [pc EXCEPT ![self] = "p1w"]
                   ELSE /\ pc' = [pc EXCEPT ![self] = "p8"]
-            /\ UNCHANGED << mgrLock, haltLock, thrLock, go, halting, finished, 
-                            threads, finishing, started, alive, written, 
-                            sstate, terminated, badWrite, nctl, closed, 
-                            playRaised, aliveAtClose, openAtClose, faulted, 
-                            tgt, th, tojoin, idx >>
+            /\ UNCHANGED << mgrLock, haltLock, thrLock, go, released, halting, 
+                            finished, threads, finishing, started, alive, 
+                            written, sstate, terminated, badWrite, nctl, 
+                            closed, playRaised, aliveAtClose, openAtClose, 
+                            faulted, tgt, th, tojoin, idx >>
 
 p1w(self) == /\ pc[self] = "p1w"
              /\ \/ /\ idx' = [idx EXCEPT ![self] = idx[self] + 1]
@@ -651,52 +695,53 @@ p1w(self) == /\ pc[self] = "p1w"
                          THEN /\ pc' = [pc EXCEPT ![self] = "p8"]
                          ELSE /\ pc' = [pc EXCEPT ![self] = "p13"]
                    /\ UNCHANGED <<written, badWrite, idx>>
-             /\ UNCHANGED << mgrLock, haltLock, thrLock, go, halting, finished, 
-                             threads, finishing, started, alive, sstate, 
-                             terminated, nctl, closed, playRaised, 
+             /\ UNCHANGED << mgrLock, haltLock, thrLock, go, released, halting, 
+                             finished, threads, finishing, started, alive, 
+                             sstate, terminated, nctl, closed, playRaised, 
                              aliveAtClose, openAtClose, tgt, th, tojoin >>
 
 p1h(self) == /\ pc[self] = "p1h"
              /\ IF StopWakes /\ halting[self]
                    THEN /\ pc' = [pc EXCEPT ![self] = "p3"]
                    ELSE /\ pc' = [pc EXCEPT ![self] = "p2"]
-             /\ UNCHANGED << mgrLock, haltLock, thrLock, go, halting, finished, 
-                             threads, finishing, started, alive, written, 
-                             sstate, terminated, badWrite, nctl, closed, 
-                             playRaised, aliveAtClose, openAtClose, faulted, 
-                             tgt, th, tojoin, idx >>
+             /\ UNCHANGED << mgrLock, haltLock, thrLock, go, released, halting, 
+                             finished, threads, finishing, started, alive, 
+                             written, sstate, terminated, badWrite, nctl, 
+                             closed, playRaised, aliveAtClose, openAtClose, 
+                             faulted, tgt, th, tojoin, idx >>
 
 p2(self) == /\ pc[self] = "p2"
             /\ IF go[self]
                   THEN /\ pc' = [pc EXCEPT ![self] = "p1"]
                   ELSE /\ pc' = [pc EXCEPT ![self] = "p3"]
-            /\ UNCHANGED << mgrLock, haltLock, thrLock, go, halting, finished, 
-                            threads, finishing, started, alive, written, 
-                            sstate, terminated, badWrite, nctl, closed, 
-                            playRaised, aliveAtClose, openAtClose, faulted, 
-                            tgt, th, tojoin, idx >>
+            /\ UNCHANGED << mgrLock, haltLock, thrLock, go, released, halting, 
+                            finished, threads, finishing, started, alive, 
+                            written, sstate, terminated, badWrite, nctl, 
+                            closed, playRaised, aliveAtClose, openAtClose, 
+                            faulted, tgt, th, tojoin, idx >>
 
 p3(self) == /\ pc[self] = "p3"
             /\ sstate' = [sstate EXCEPT ![self] = "stopped"]
             /\ pc' = [pc EXCEPT ![self] = "p4"]
-            /\ UNCHANGED << mgrLock, haltLock, thrLock, go, halting, finished, 
-                            threads, finishing, started, alive, written, 
-                            terminated, badWrite, nctl, closed, playRaised, 
-                            aliveAtClose, openAtClose, faulted, tgt, th, 
-                            tojoin, idx >>
+            /\ UNCHANGED << mgrLock, haltLock, thrLock, go, released, halting, 
+                            finished, threads, finishing, started, alive, 
+                            written, terminated, badWrite, nctl, closed, 
+                            playRaised, aliveAtClose, openAtClose, faulted, 
+                            tgt, th, tojoin, idx >>
 
 p4(self) == /\ pc[self] = "p4"
             /\ IF halting[self]
                   THEN /\ pc' = [pc EXCEPT ![self] = "p8"]
                   ELSE /\ pc' = [pc EXCEPT ![self] = "p5"]
-            /\ UNCHANGED << mgrLock, haltLock, thrLock, go, halting, finished, 
-                            threads, finishing, started, alive, written, 
-                            sstate, terminated, badWrite, nctl, closed, 
-                            playRaised, aliveAtClose, openAtClose, faulted, 
-                            tgt, th, tojoin, idx >>
+            /\ UNCHANGED << mgrLock, haltLock, thrLock, go, released, halting, 
+                            finished, threads, finishing, started, alive, 
+                            written, sstate, terminated, badWrite, nctl, 
+                            closed, playRaised, aliveAtClose, openAtClose, 
+                            faulted, tgt, th, tojoin, idx >>
 
 p5(self) == /\ pc[self] = "p5"
-            /\ go[self]
+            /\ go[self] \/ released[self]
+            /\ released' = [released EXCEPT ![self] = FALSE]
             /\ pc' = [pc EXCEPT ![self] = "p5h"]
             /\ UNCHANGED << mgrLock, haltLock, thrLock, go, halting, finished, 
                             threads, finishing, started, alive, written, 
@@ -708,68 +753,68 @@ p5h(self) == /\ pc[self] = "p5h"
              /\ IF StopWakes /\ halting[self]
                    THEN /\ pc' = [pc EXCEPT ![self] = "p8"]
                    ELSE /\ pc' = [pc EXCEPT ![self] = "p6"]
-             /\ UNCHANGED << mgrLock, haltLock, thrLock, go, halting, finished, 
-                             threads, finishing, started, alive, written, 
-                             sstate, terminated, badWrite, nctl, closed, 
-                             playRaised, aliveAtClose, openAtClose, faulted, 
-                             tgt, th, tojoin, idx >>
+             /\ UNCHANGED << mgrLock, haltLock, thrLock, go, released, halting, 
+                             finished, threads, finishing, started, alive, 
+                             written, sstate, terminated, badWrite, nctl, 
+                             closed, playRaised, aliveAtClose, openAtClose, 
+                             faulted, tgt, th, tojoin, idx >>
 
 p6(self) == /\ pc[self] = "p6"
             /\ sstate' = [sstate EXCEPT ![self] = "open"]
             /\ pc' = [pc EXCEPT ![self] = "p1"]
-            /\ UNCHANGED << mgrLock, haltLock, thrLock, go, halting, finished, 
-                            threads, finishing, started, alive, written, 
-                            terminated, badWrite, nctl, closed, playRaised, 
-                            aliveAtClose, openAtClose, faulted, tgt, th, 
-                            tojoin, idx >>
+            /\ UNCHANGED << mgrLock, haltLock, thrLock, go, released, halting, 
+                            finished, threads, finishing, started, alive, 
+                            written, terminated, badWrite, nctl, closed, 
+                            playRaised, aliveAtClose, openAtClose, faulted, 
+                            tgt, th, tojoin, idx >>
 
 p8(self) == /\ pc[self] = "p8"
             /\ (thrLock[self]) = -1
             /\ thrLock' = [thrLock EXCEPT ![self] = self]
             /\ pc' = [pc EXCEPT ![self] = "p9"]
-            /\ UNCHANGED << mgrLock, haltLock, go, halting, finished, threads, 
-                            finishing, started, alive, written, sstate, 
-                            terminated, badWrite, nctl, closed, playRaised, 
-                            aliveAtClose, openAtClose, faulted, tgt, th, 
-                            tojoin, idx >>
-
-p9(self) == /\ pc[self] = "p9"
-            /\ IF \E i \in DOMAIN threads : threads[i] = self
-                  THEN /\ pc' = [pc EXCEPT ![self] = "p9c"]
-                  ELSE /\ pc' = [pc EXCEPT ![self] = "p12"]
-            /\ UNCHANGED << mgrLock, haltLock, thrLock, go, halting, finished, 
+            /\ UNCHANGED << mgrLock, haltLock, go, released, halting, finished, 
                             threads, finishing, started, alive, written, 
                             sstate, terminated, badWrite, nctl, closed, 
                             playRaised, aliveAtClose, openAtClose, faulted, 
                             tgt, th, tojoin, idx >>
 
+p9(self) == /\ pc[self] = "p9"
+            /\ IF \E i \in DOMAIN threads : threads[i] = self
+                  THEN /\ pc' = [pc EXCEPT ![self] = "p9c"]
+                  ELSE /\ pc' = [pc EXCEPT ![self] = "p12"]
+            /\ UNCHANGED << mgrLock, haltLock, thrLock, go, released, halting, 
+                            finished, threads, finishing, started, alive, 
+                            written, sstate, terminated, badWrite, nctl, 
+                            closed, playRaised, aliveAtClose, openAtClose, 
+                            faulted, tgt, th, tojoin, idx >>
+
 p9c(self) == /\ pc[self] = "p9c"
              /\ sstate' = [sstate EXCEPT ![self] = "closed"]
              /\ pc' = [pc EXCEPT ![self] = "p10"]
-             /\ UNCHANGED << mgrLock, haltLock, thrLock, go, halting, finished, 
-                             threads, finishing, started, alive, written, 
-                             terminated, badWrite, nctl, closed, playRaised, 
-                             aliveAtClose, openAtClose, faulted, tgt, th, 
-                             tojoin, idx >>
+             /\ UNCHANGED << mgrLock, haltLock, thrLock, go, released, halting, 
+                             finished, threads, finishing, started, alive, 
+                             written, terminated, badWrite, nctl, closed, 
+                             playRaised, aliveAtClose, openAtClose, faulted, 
+                             tgt, th, tojoin, idx >>
 
 p10(self) == /\ pc[self] = "p10"
              /\ mgrLock = -1
              /\ mgrLock' = self
              /\ pc' = [pc EXCEPT ![self] = "p11"]
-             /\ UNCHANGED << haltLock, thrLock, go, halting, finished, threads, 
-                             finishing, started, alive, written, sstate, 
-                             terminated, badWrite, nctl, closed, playRaised, 
-                             aliveAtClose, openAtClose, faulted, tgt, th, 
-                             tojoin, idx >>
+             /\ UNCHANGED << haltLock, thrLock, go, released, halting, 
+                             finished, threads, finishing, started, alive, 
+                             written, sstate, terminated, badWrite, nctl, 
+                             closed, playRaised, aliveAtClose, openAtClose, 
+                             faulted, tgt, th, tojoin, idx >>
 
 p11(self) == /\ pc[self] = "p11"
              /\ threads' = SelectSeq(threads, LAMBDA x : x # self)
              /\ pc' = [pc EXCEPT ![self] = "p11b"]
-             /\ UNCHANGED << mgrLock, haltLock, thrLock, go, halting, finished, 
-                             finishing, started, alive, written, sstate, 
-                             terminated, badWrite, nctl, closed, playRaised, 
-                             aliveAtClose, openAtClose, faulted, tgt, th, 
-                             tojoin, idx >>
+             /\ UNCHANGED << mgrLock, haltLock, thrLock, go, released, halting, 
+                             finished, finishing, started, alive, written, 
+                             sstate, terminated, badWrite, nctl, closed, 
+                             playRaised, aliveAtClose, openAtClose, faulted, 
+                             tgt, th, tojoin, idx >>
 
 p11b(self) == /\ pc[self] = "p11b"
               /\ IF JoinAll
@@ -777,38 +822,38 @@ p11b(self) == /\ pc[self] = "p11b"
                     ELSE /\ TRUE
                          /\ UNCHANGED finishing
               /\ pc' = [pc EXCEPT ![self] = "p11r"]
-              /\ UNCHANGED << mgrLock, haltLock, thrLock, go, halting, 
-                              finished, threads, started, alive, written, 
-                              sstate, terminated, badWrite, nctl, closed, 
-                              playRaised, aliveAtClose, openAtClose, faulted, 
-                              tgt, th, tojoin, idx >>
+              /\ UNCHANGED << mgrLock, haltLock, thrLock, go, released, 
+                              halting, finished, threads, started, alive, 
+                              written, sstate, terminated, badWrite, nctl, 
+                              closed, playRaised, aliveAtClose, openAtClose, 
+                              faulted, tgt, th, tojoin, idx >>
 
 p11r(self) == /\ pc[self] = "p11r"
               /\ mgrLock' = -1
               /\ pc' = [pc EXCEPT ![self] = "p12"]
-              /\ UNCHANGED << haltLock, thrLock, go, halting, finished, 
-                              threads, finishing, started, alive, written, 
-                              sstate, terminated, badWrite, nctl, closed, 
-                              playRaised, aliveAtClose, openAtClose, faulted, 
-                              tgt, th, tojoin, idx >>
+              /\ UNCHANGED << haltLock, thrLock, go, released, halting, 
+                              finished, threads, finishing, started, alive, 
+                              written, sstate, terminated, badWrite, nctl, 
+                              closed, playRaised, aliveAtClose, openAtClose, 
+                              faulted, tgt, th, tojoin, idx >>
 
 p12(self) == /\ pc[self] = "p12"
              /\ thrLock' = [thrLock EXCEPT ![self] = -1]
              /\ pc' = [pc EXCEPT ![self] = "p13"]
-             /\ UNCHANGED << mgrLock, haltLock, go, halting, finished, threads, 
-                             finishing, started, alive, written, sstate, 
-                             terminated, badWrite, nctl, closed, playRaised, 
-                             aliveAtClose, openAtClose, faulted, tgt, th, 
-                             tojoin, idx >>
+             /\ UNCHANGED << mgrLock, haltLock, go, released, halting, 
+                             finished, threads, finishing, started, alive, 
+                             written, sstate, terminated, badWrite, nctl, 
+                             closed, playRaised, aliveAtClose, openAtClose, 
+                             faulted, tgt, th, tojoin, idx >>
 
 p13(self) == /\ pc[self] = "p13"
              /\ alive' = [alive EXCEPT ![self] = FALSE]
              /\ pc' = [pc EXCEPT ![self] = "Done"]
-             /\ UNCHANGED << mgrLock, haltLock, thrLock, go, halting, finished, 
-                             threads, finishing, started, written, sstate, 
-                             terminated, badWrite, nctl, closed, playRaised, 
-                             aliveAtClose, openAtClose, faulted, tgt, th, 
-                             tojoin, idx >>
+             /\ UNCHANGED << mgrLock, haltLock, thrLock, go, released, halting, 
+                             finished, threads, finishing, started, written, 
+                             sstate, terminated, badWrite, nctl, closed, 
+                             playRaised, aliveAtClose, openAtClose, faulted, 
+                             tgt, th, tojoin, idx >>
 
 Player(self) == p0(self) \/ p1(self) \/ p1w(self) \/ p1h(self) \/ p2(self)
                    \/ p3(self) \/ p4(self) \/ p5(self) \/ p5h(self)
